@@ -303,4 +303,31 @@ theorem output_only_grows (st : HO.St) (a : Act) : ∃ new, (HO.step st a).out =
     · exact ⟨[], by simp⟩
     · exact ⟨_, rfl⟩
 
+/-! ### a non-trivial schedule -/
+
+def demoLogin (pid : Int) (who : String) : Login :=
+  { pid := pid, cred := who.toList, hasSource := true, subjects := [("userID", who.toList)],
+    srcType := "IP".toList, srcValue := "10.0.0.1".toList, srcExtra := [], target := [], loggedAt := 0 }
+
+def demoEv (ts : Int) (ses : String) (typ : AM.Tr.EvType) (pid : String) : AEvent :=
+  { ts := ts, ses := ses.toList, typ := typ, pidTok := pid.toList, result := "success".toList,
+    action := [], how := [], object := [], args := [] }
+
+/-- two sessions; the audit side runs ahead for session 1 (its events are held and released by the
+hand-off), the sshd side runs ahead for session 2 -/
+def demoInit : HO.St :=
+  { sshdTodo := [demoLogin 100 "alice", demoLogin 200 "bob"],
+    auditTodo := [(demoEv 1 "1" .login "100", 1), (demoEv 2 "1" .other "100", 2), (demoEv 3 "2" .login "200", 3),
+                  (demoEv 4 "2" .other "200", 4), (demoEv 5 "1" .credDisp "100", 5)] }
+
+def demoSched : List Act :=
+  [.audit, .audit, .sshdWrite, .audit, .handoff, .sshdWrite, .handoff, .audit, .audit]
+
+/-- the output of that schedule: alice's UserLogin, the two held events of session 1, bob's
+UserLogin, then session 2's events and the end of session 1 — every action after its own login -/
+example :
+    (HO.run demoInit demoSched).out.map (fun x => match x with
+      | .login l => (0, l.pid) | .action em => (em.ev.ts, em.login.pid)) =
+    [(0, 100), (1, 100), (2, 100), (0, 200), (3, 200), (4, 200), (5, 100)] := by decide
+
 end AM.C10
